@@ -145,6 +145,32 @@ fn uu_go<const B: usize, const L: usize, const D: usize, const LD: usize>(m: &mu
         m.must_panic(|| Uint::<D, LD>::from(x), "source too large");
         m.must_panic(|| x.to::<Uint<D, LD>>(), "source too large");
     }
+    // the deprecated (still public) spellings
+    #[allow(deprecated)]
+    {
+        if fits {
+            if let Some(v) = m.must_in("from_uint", || Uint::<D, LD>::from_uint(x)) {
+                m.eq_uint("from_uint", &v, &wrapped);
+            }
+        } else {
+            m.must_panic(|| Uint::<D, LD>::from_uint(x), "source too large");
+        }
+        if let Some(v) = m.must_in("checked_from_uint", || Uint::<D, LD>::checked_from_uint(x)) {
+            match v {
+                Some(v) => {
+                    if m.eq("checked_from_uint.some", &true, &fits) {
+                        m.eq_uint("checked_from_uint.value", &v, &wrapped);
+                    }
+                }
+                None => {
+                    m.eq("checked_from_uint.none", &true, &!fits);
+                }
+            }
+        }
+    }
+    if let Some(v) = m.must_in("into_limbs", || x.into_limbs().to_vec()) {
+        m.eq("into_limbs", &v, &a.to_vec());
+    }
     if let Some(v) = m.must_in("wrapping_from(Uint)", || Uint::<D, LD>::wrapping_from(x)) {
         m.eq_uint("wrapping_from", &v, &wrapped);
     }
